@@ -31,4 +31,66 @@ theorem g_union_exact (a b : GC) (ha : a.wfG = true) (hb : b.wfG = true) :
     ∃ r, a.unionWith b = .ok r ∧ r.wfG = true ∧ ∀ v, r.den v = (a.den v || b.den v) :=
   GC.unionWith_G a b ha hb
 
+example : ∃ a b r, parseConstraint "!=a, !=b" = .ok a ∧ parseConstraint "a || b" = .ok b ∧
+    a.unionWith b = .ok r ∧ r = .union [.atom ⟨"a", .eq, false⟩, .atom ⟨"b", .eq, false⟩,
+      .multi false [⟨"a", .ne, false⟩, ⟨"b", .ne, false⟩]] := ⟨_, _, _, rfl, rfl, rfl, rfl⟩
+
+/-- **Inversion, where provided, is the complement** — for every constraint object (no well-formedness
+needed, all four operators): whenever `invert()` returns, the result admits exactly the values the
+operand rejects. -/
+theorem g_invert_exact (a r : GC) (h : a.invert = .ok r) (v : String) : r.den v = !a.den v :=
+  GC.invert_G a r h v
+
+example : ∃ a r, parseConstraint "a || b" = .ok a ∧ a.invert = .ok r ∧
+    r = .multi false [⟨"a", .ne, false⟩, ⟨"b", .ne, false⟩] := ⟨_, _, rfl, rfl, rfl⟩
+
+/-- **A constraint reporting itself universal admits every value**, and one reporting itself empty
+admits none (every constraint object, both semantics). -/
+theorem g_is_any_sound (c : GC) (h : c.isAny = true) (v : String) : c.den v = true := by
+  match c, h with
+  | .s .any, _ => rfl
+
+theorem g_is_empty_sound (c : GC) (h : c.isEmpty = true) (v : String) : c.den v = false := by
+  match c, h with
+  | .s .empty, _ => rfl
+
+theorem x_is_any_sound (c : GC) (h : c.isAny = true) (E : String → Bool) : c.denX E = true := by
+  match c, h with
+  | .s .any, _ => rfl
+
+theorem x_is_empty_sound (c : GC) (h : c.isEmpty = true) (E : String → Bool) : c.denX E = false := by
+  match c, h with
+  | .s .empty, _ => rfl
+
+/-! ### What is false of the code (the model mirrors it): concrete witnesses, replayed on poetry-core -/
+
+/-- `g_result_wellformed` is FALSE: the union of two results of the algebra is a `MultiConstraint` of
+nothing — it admits everything, yet does not report `is_any` and prints as the empty string.
+Real code: `parse_constraint("!=a, !=b").union(parse_constraint("!=a, !=c")).union(parse_constraint("a"))`
+is `<MultiConstraint >`. (The meaning is still exact, so this does not contradict `g_union_exact`.) -/
+theorem g_result_wellformed_counterexample :
+    ∃ a b c r1 r2, parseConstraint "!=a, !=b" = .ok a ∧ parseConstraint "!=a, !=c" = .ok b ∧
+      parseConstraint "a" = .ok c ∧ a.unionWith b = .ok r1 ∧ r1.unionWith c = .ok r2 ∧
+      r2 = .multi false [] ∧ r2.isAny = false ∧ r2.toStr = "" ∧ r2.wfG = true :=
+  ⟨_, _, _, _, _, rfl, rfl, rfl, rfl, rfl, rfl, rfl, rfl, rfl⟩
+
+/-- … and inverting that degenerate object gives a `UnionConstraint` of nothing, which is outside `wfG`
+and makes `union` INEXACT: `parse_constraint("a").union(<UnionConstraint >)` is `<UnionConstraint >`,
+which rejects `a`.  Hence `wfG` (non-empty unions) is a genuine hypothesis of `g_union_exact`, and
+`invert` does not preserve it. -/
+theorem g_union_after_degenerate_invert_counterexample :
+    ∃ c r, parseConstraint "a" = .ok c ∧ (GC.multi false []).invert = .ok (.union []) ∧
+      c.unionWith (.union []) = .ok r ∧ r.den "a" = false ∧ c.den "a" = true :=
+  ⟨_, _, rfl, rfl, rfl, by decide, by decide⟩
+
+/-- `extra` variant: `invert` does not preserve `wfX` (an `ExtraMultiConstraint` mentioning a value twice),
+and `union` is then INEXACT.  Real code: `parse_extra_constraint("a || a").invert()` is
+`<ExtraMultiConstraint !=a, !=a>`; its union with `parse_extra_constraint("a")` is `<UnionConstraint a>`,
+false for the empty set of extras, where the first operand is true. -/
+theorem x_union_after_invert_counterexample :
+    ∃ a i c r, parseExtraConstraint "a || a" = .ok a ∧ a.wfX = true ∧ a.invert = .ok i ∧ i.wfX = false ∧
+      parseExtraConstraint "a" = .ok c ∧ i.unionWith c = .ok r ∧
+      r.denX (fun _ => false) = false ∧ i.denX (fun _ => false) = true :=
+  ⟨_, _, _, _, rfl, by decide, rfl, by decide, rfl, rfl, by decide, by decide⟩
+
 end Poetry.C16
